@@ -1,6 +1,7 @@
 package rules
 
 import (
+	"go/constant"
 	"go/token"
 
 	"golang.org/x/tools/go/ssa"
@@ -192,7 +193,7 @@ func ruleParseRefreshes(r *core.Reporter) {
 }
 
 func init() {
-	register(&core.Rule{ID: "R-SEEN-ASKS-STORE", Props: []string{"C08"}, Doc: "the local seencheck answers from the store: in the lookup function of package seencheck (the one that calls DB.Get — isSeen today) every path to a return passes that DB.Get, and no other state decides the answer. An in-memory prefilter that is not rebuilt from the database says 'never seen' for everything an earlier run of the same job recorded: all of it is fetched again and its stored type overwritten", Run: ruleSeenAsksStore})
+	register(&core.Rule{ID: "R-SEEN-ASKS-STORE", Props: []string{"C08"}, Doc: "the local seencheck never answers 'not seen' from anything but the store: in the lookup function of package seencheck (the caller of DB.Get whose first result is the found flag — isSeen today) no return that can yield found == false is reachable without passing DB.Get; a positive cache of this run's own records is fine, a negative prefilter is empty after a restart on the same job and everything the earlier run recorded is fetched again. With the lookup folded into its caller: DB.Get is control-dependent on nothing but loop bounds and error checks", Run: ruleSeenAsksStore})
 }
 
 func ruleSeenAsksStore(r *core.Reporter) {
@@ -231,6 +232,32 @@ func ruleSeenAsksStore(r *core.Reporter) {
 		// the question to the database is not conditional on anything but loop bounds and error checks: a guard on
 		// other state (a map or sync.Map hit, a counter) is a second, volatile source of truth
 		bad := ""
+		// a lookup function proper (first result: found bool): what matters is that "not found" is never answered
+		// without the database — a positive cache filled by this run's own records is fine
+		if res := fn.Signature.Results(); res.Len() >= 1 && res.At(0).Type().String() == "bool" {
+			isGet := func(x ssa.Instruction) bool { return x == get }
+			rr := ir.Reach([]ir.Pt{ir.Entry(fn)}, ir.Opts{Stop: isGet})
+			var at ssa.Instruction
+			for _, ret := range ir.Returns(fn) {
+				if !rr.Reached[ret] {
+					continue
+				}
+				for _, tuple := range rr.RetTuples[ret] {
+					if c, isC := tuple[0].(*ssa.Const); !isC || c.Value == nil || !constant.BoolVal(c.Value) {
+						at = ret
+					}
+				}
+				if len(rr.RetTuples[ret]) == 0 {
+					at = ret
+				}
+			}
+			if at != nil {
+				r.Violated(key, p.InstrPos(at), "the seencheck lookup can answer 'not seen' without asking the database: whatever decides that — a cache, a counter, a prefilter — is empty after a restart on the same job directory, so every URL recorded by the previous run is reported as never seen and fetched again")
+			} else {
+				r.Held(key, 1, "'not seen' is only ever answered by DB.Get")
+			}
+			continue
+		}
 		for _, ii := range ir.Ifs(fn) {
 			for _, t := range []bool{true, false} {
 				if !ir.OnlyVia(ir.Entry(fn), get, ii.If.Block(), ii.EdgeWhen(t)) {
